@@ -68,16 +68,55 @@ class Scenario:
         tags = list(range(self.next_tag, self.next_tag + cnt))
         self.next_tag += cnt
         pos = np.array([[2 + (g % 26), 4, 4] for g in tags], dtype=np.float32).reshape(-1, 3)
-        mole = Molecules(pos, features={"tag": np.array(tags, dtype=np.int64)})
         if explicit:
             tid = image_id
-            self.b.add_tomogram(_tomo(tid), mole, tid)
         else:
             tid = len(self.b.images)
             while tid in self.b.images:
                 tid += 1
+        # "src": the tomogram (by content) this molecule was registered with, whatever id it carries later
+        mole = Molecules(pos, features={"tag": np.array(tags, dtype=np.int64),
+                                        "src": np.full(len(tags), tid, dtype=np.int64)})
+        if explicit:
+            self.b.add_tomogram(_tomo(tid), mole, tid)
+        else:
             self.b.add_tomogram(_tomo(tid), mole)
         return self
+
+    def merge(self, ntomo, cnt, how):
+        """Merge another BatchLoader (tomogram contents 20, 21, ...) into this one."""
+        from acryo import BatchLoader, Molecules
+        other = BatchLoader(order=0, output_shape=(1, 3, 3))
+        for k in range(ntomo):
+            tags = list(range(self.next_tag, self.next_tag + cnt))
+            self.next_tag += cnt
+            pos = np.array([[2 + (g % 26), 4, 4] for g in tags], dtype=np.float32).reshape(-1, 3)
+            src = 20 + 10 * how + k + len(self.b.images)
+            other.add_tomogram(_tomo(src), Molecules(pos, features={"tag": np.array(tags, dtype=np.int64),
+                                                                      "src": np.full(len(tags), src, dtype=np.int64)}), k)
+        if how == 0:
+            self.b.add_loader(other)
+        else:
+            self.b = BatchLoader.from_loaders([self.b, other], order=0, output_shape=(1, 3, 3))
+        return self
+
+    def check_sources(self, b=None):
+        """Every molecule's subtomogram comes from the tomogram it was registered with, at its own z."""
+        import dask
+        b = self.b if b is None else b
+        f = b.molecules.features
+        if len(f) == 0 or "src" not in f.columns:
+            return None
+        with dask.config.set(scheduler="synchronous"):
+            arr = np.asarray(b.asnumpy())
+        src = [int(x) for x in f["src"].to_list()]
+        zs = [int(round(float(z))) for z in b.molecules.pos[:, 0]]
+        got = [_decode(float(arr[k, 0, 1, 1])) for k in range(arr.shape[0])]
+        bad = [k for k in range(len(src)) if got[k] != (src[k], zs[k])]
+        if bad or len(got) != len(src):
+            return (f"molecules registered with tomograms {src[:10]} at z {zs[:10]} are loaded from (tomogram, z) "
+                    f"{got[:10]}")
+        return None
 
     def observe(self, b=None):
         import dask
@@ -127,6 +166,9 @@ def _apply(s: Scenario, op, args):
         return "G " + " ".join(out)
     elif op == 8:
         s.b = b.replace(molecules=b.molecules.subset(slice(int(args[0]), int(args[1]))))
+    elif op == 9:
+        s.merge(int(args[0]), int(args[1]), int(args[2]))
+        return "merged"
     return s.observe()
 
 
@@ -227,7 +269,11 @@ def run_case(inp):
                 s2.b = old
                 if s2.observe() != before:
                     V("no-mutation", f"op {op}{args} modified the loader it was derived from")
-            if res.startswith("rows="):
+            msg = s.check_sources()
+            if msg:
+                V("source-tomogram", f"after op {op}{args}: {msg}")
+                return viols
+            if res.startswith("rows=") and not any(o == 9 for o, _ in ops):   # (content id = image id only without merges)
                 rows = res.split(" ")[0][5:]
                 tasks = res.split(" ")[1][6:]
                 if rows != tasks:
@@ -239,8 +285,9 @@ def run_case(inp):
         if n == 0:
             return viols
         ids = [int(x) for x in b.molecules.features["image-id"].to_list()]
+        srcs = [int(x) for x in b.molecules.features["src"].to_list()]
         zs = [int(round(float(z))) for z in b.molecules.pos[:, 0]]
-        want = [100.0 * (i + 1) + z for i, z in zip(ids, zs)]
+        want = [100.0 * (i + 1) + z for i, z in zip(srcs, zs)]
         # apply / score-like mapping: row i must come from molecule i's tomogram and position
         df = b.apply(np.mean)
         got = [float(x) for x in df[df.columns[0]].to_list()]
@@ -268,6 +315,25 @@ def run_case(inp):
             V("align-rows", "align changed the order of the molecules")
         if any(abs(a - w) > 1e-2 for a, w in zip(sc, want)):
             V("align-rows", f"align wrote scores {sc[:8]} to molecules whose own sub-volumes give {want[:8]}")
+        # per-molecule keyword arguments (pos, quaternion) reach the task of the same molecule
+        class ProbeKw(Probe):
+            def _score(self, subvolume, template, quaternion, pos, backend):
+                return float(pos[0]) + 1000.0 * float(quaternion[2]) + 1e6 * float(quaternion[3])
+
+            def _optimize(self, subvolume, template, max_shifts, quaternion, pos, backend):
+                return (np.zeros(3, dtype=np.float32), np.array([0, 0, 0, 1], dtype=np.float32),
+                        float(pos[0]) + 1000.0 * float(quaternion[2]) + 1e6 * float(quaternion[3]))
+
+        qs = np.asarray(b.molecules.quaternion(), dtype=np.float64)
+        want_kw = [float(p[0]) + 1000.0 * float(q[2]) + 1e6 * float(q[3]) for p, q in zip(b.molecules.pos, qs)]
+        got_kw = [float(x) for x in b.score([tmpl], alignment_model=ProbeKw)[0]]
+        if len(got_kw) != n or any(abs(a - w) > 0.5 for a, w in zip(got_kw, want_kw)):
+            V("kwarg-rows", f"score(): task i does not receive molecule i's own pos/quaternion: got "
+                            f"{[round(x, 1) for x in got_kw[:6]]}, molecules have {[round(x, 1) for x in want_kw[:6]]}")
+        al_kw = [float(x) for x in b.align(tmpl, alignment_model=ProbeKw, max_shifts=1.0).molecules.features["score"].to_list()]
+        if any(abs(a - w) > 0.5 for a, w in zip(al_kw, want_kw)):
+            V("kwarg-rows", f"align(): task i does not receive molecule i's own pos/quaternion: got "
+                            f"{[round(x, 1) for x in al_kw[:6]]}, molecules have {[round(x, 1) for x in want_kw[:6]]}")
         scs = b.score([tmpl], alignment_model=Probe)[0]
         if any(abs(float(a) - w) > 1e-2 for a, w in zip(scs, want)):
             V("score-rows", f"score rows {list(map(float, scs[:8]))} do not follow the molecules {want[:8]}")
@@ -281,9 +347,10 @@ def run_case(inp):
                 break
             src = [int(round(float(arr[k].mean()) / 8.0)) // 100 - 1 for k in range(arr.shape[0])]   # bin_image sums 2x2x2 voxels
             bids = [int(x) for x in bb.molecules.features["image-id"].to_list()]
-            if src != bids or bids != ids:
-                V("binning-images", f"after binning(2, compute={compute}) molecules of images {ids[:8]} are loaded "
-                                    f"from tomograms {src[:8]}")
+            bsrc = [int(x) for x in bb.molecules.features["src"].to_list()]
+            if src != bsrc or bids != ids or bsrc != srcs:
+                V("binning-images", f"after binning(2, compute={compute}) molecules registered with tomograms {srcs[:8]} "
+                                    f"(image ids {ids[:8]}) are loaded from tomograms {src[:8]}")
                 break
         # groups: partition, re-iterable, derived groups too
         g = b.groupby((pl.col("tag") % 2).alias("k"))
@@ -312,6 +379,10 @@ def oracle(rng, thorough, deep=False, hints=None):
     # the classic interleaved batch: two tomograms, sorted so that ids alternate
     cases.append(dict(ops=[[1, [0, 3]], [1, [1, 3]], [3, [7, 997, 0]]]))
     cases.append(dict(ops=[[1, [5, 2]], [2, [3]], [1, [1, 2]], [3, [3, 997, 1]], [6, [5]]]))
+    # batches merged into batches (fewer / more tomograms than the receiving collection)
+    cases.append(dict(ops=[[1, [0, 2]], [9, [2, 2, 0]], [3, [7, 997, 0]]]))
+    cases.append(dict(ops=[[1, [3, 1]], [9, [3, 2, 1]], [9, [1, 2, 0]], [3, [5, 997, 1]]]))
+    cases.append(dict(ops=[[1, [0, 1]], [1, [1, 2]], [1, [2, 1]], [9, [2, 1, 0]]]))
     # a tomogram without molecules registered before populated ones
     cases.append(dict(ops=[[1, [2, 0]], [1, [0, 2]], [1, [7, 0]], [1, [1, 3]]]))
     for it in range(24 if big else 8):
